@@ -190,12 +190,11 @@ class ProductErrorNode(ErrorNode):
         # fuse together non-branching productnodes
         while len(self.children) == 1 and not len(self.missing) and not len(self.extra):
             field, child = next(iter(self.children.items()))
-            if not isinstance(child, ProductErrorNode):
+            if not isinstance(child, ProductErrorNode) or len(child.missing) or len(child.extra):
+                # (a node which lacks fields or has unexpected ones is printed itself, to say what was expected there)
                 break
             children: t.Dict[t.Union[str, int], ErrorNode] = {f"{field}.{k}": v for (k, v) in child.children.items()}
-            missing = set(f"{field}.{f}" for f in child.missing)
-            extra = set(f"{field}.{f}" for f in child.extra)
-            self = ProductErrorNode(self.expected, children, self.actual, missing, extra)
+            self = ProductErrorNode(self.expected, children, self.actual)
 
         print(f"{'' if inside_sum else 'Expected '}{self.expected}", file=file)
         for (field, child) in self.children.items():
